@@ -309,6 +309,39 @@ Theorem C17_event_reaches_all_in_order :
 Proof. exact event_reaches_all_quiet. Qed.
 Print Assumptions C17_event_reaches_all_in_order.
 
+(* uv_loop_fork in a child (uv__inotify_fork: every handle of every watcher list is stopped and
+   started again on a fresh inotify descriptor).  In any state outside uv__inotify_read ([Quiet]) that
+   satisfies the membership invariant (every reachable state does: Mem_irun), with the kernel giving
+   equal new descriptors exactly to the handles of one old list (same inode <=> same wd: [phi]
+   injective): the inotify part returns 0; every handle that was linked in a watcher list is active
+   afterwards, with its callback, in a list whose path (base name) is the path of its old list;
+   every other handle is untouched.  So the set of watching handles and their paths is the same
+   before and after.  (The scripts of C17_no_cb_for_stopped / C17_list_freed_iff_empty may fork:
+   [IFork] runs the child's part from the forked state, [IChildEnd] resumes the parent from its
+   own state at the fork, unaffected by what the child did.) *)
+Theorem C17_fork_keeps_watchers :
+  forall s wds (phi : Z -> Z),
+  Mem s -> Quiet s ->
+  (forall wd, 0 <= phi wd) -> (forall a b, phi a = phi b -> a = b) ->
+  wds = map (fun hb => phi (e_wd (gete s (fst hb)))) (fork_tmp s) ->
+  let s' := fst (inotify_fork s wds) in
+  (exists ev, snd (inotify_fork s wds) = ev ++ [IRet 0]) /\
+  (forall wd w h, find_w (wls s) wd = Some w -> In h (w_hs w) ->
+     e_active (gete s' h) = true /\ e_cb (gete s' h) = e_cb (gete s h) /\
+     exists w', find_w (wls s') (e_wd (gete s' h)) = Some w' /\ w_base w' = w_base w) /\
+  (forall h, (forall wd w, find_w (wls s) wd = Some w -> ~ In h (w_hs w)) -> gete s' h = gete s h).
+Proof. exact fork_keeps_watchers. Qed.
+Print Assumptions C17_fork_keeps_watchers.
+
+(* three handles on two paths (two share a list), one stopped handle; fork with new descriptors 1, 1, 2 *)
+Example C17_fork_example :
+  let s := fst (irun iinit [IInit; IInit; IInit; IInit; IStart 0 1 5 7; IStart 1 2 6 9; IStart 2 3 5 7;
+                            IStart 3 1 6 9; IStop 3] (fun _ => []) 0) in
+  snd (inotify_fork s [1; 1; 2]) = [IRm 7; IRm 9; IRet 0] /\
+  map (fun e => (e_active e, e_wd e)) (ehs (fst (inotify_fork s [1; 1; 2]))) =
+    [(true, 1); (true, 2); (true, 1); (false, -1)].
+Proof. vm_compute. split; reflexivity. Qed.
+
 (* hypotheses are satisfiable: a reachable state with two contexts in one chain, one armed *)
 Example C17_example_reachable :
   let s := fst (run true (init 1000) w_restart w_nobeh 0) in
